@@ -58,6 +58,70 @@ def close(a, b, tol=1e-9):
     return abs(a - b) <= tol * (1 + abs(a) + abs(b))
 
 
+# --- integer-valued points stored with a narrow integer dtype ------------------------------------------------------
+# A point of the box with whole-number coordinates may reach a benchmark as an int32 / int16 / int8 array.  NumPy computes
+# elementwise integer operations in the caller's dtype (x ** 2 of an int8 array wraps beyond 127 - the caller's arithmetic,
+# not the benchmark's), reductions (np.sum, np.prod) in the platform integer, and float functions of an integer array in
+# float16 / float32 / float64 for 8 / 16 / >= 32 bits.  A point is a case for a dtype only if every intermediate of the
+# documented formula is exact under these rules:
+#   INT_TERM[name](v): the largest integer-valued elementwise term of the formula at coordinate v (must fit the dtype);
+#   ELEMENTWISE_FLOAT: formulas applying a float function / float factor to the coordinates themselves (>= 32 bits only).
+INT_TERM = {
+    'ackley1': lambda v: v * v, 'cosine_mixture': lambda v: v * v, 'rastringin': lambda v: v * v,
+    'sphere': lambda v: v * v, 'chung_reynolds': lambda v: v * v, 'exponential': lambda v: v * v, 'salomon': lambda v: v * v,
+    'schumer_steiglitz': lambda v: v ** 4, 'csendes': lambda v: v ** 6,
+    'styblinski_tang': lambda v: v ** 4 + 16 * v * v + 5 * abs(v),
+    'quintic': lambda v: abs(v) ** 5 + 3 * v ** 4 + 4 * abs(v) ** 3 + 2 * v * v + 10 * abs(v) + 4,
+    'brown': lambda v: (v * v) ** (v * v + 1),
+}
+ELEMENTWISE_FLOAT = {'ackley1', 'alpine1', 'alpine2', 'cosine_mixture', 'csendes', 'deb1', 'deb2', 'quintic', 'rastringin', 'schwefel'}
+NARROW = (('int32', 32), ('int16', 16), ('int8', 8))
+
+
+def narrow_range(name, lo, hi, bits):
+    """largest whole-number interval [a, b] of the documented box on which the formula's elementwise integer terms fit a
+    signed integer of `bits` bits (None if the formula is not exact for that width at all)"""
+    if name in ELEMENTWISE_FLOAT and bits < 32:
+        return None
+    top = 2 ** (bits - 1) - 1
+    term = INT_TERM.get(name, abs)
+    a, b = 0 if lo <= 0 <= hi else math.ceil(lo), 0 if lo <= 0 <= hi else math.ceil(lo)
+    if not (lo <= a <= hi) or abs(term(a)) > top or abs(a) > top:
+        return None
+    while lo <= a - 1 and abs(term(a - 1)) <= top and abs(a - 1) <= top:
+        a -= 1
+    while b + 1 <= hi and abs(term(b + 1)) <= top and abs(b + 1) <= top:
+        b += 1
+    return a, b
+
+
+def narrow_points(rng, name, lo, hi, bits):
+    rg = narrow_range(name, lo, hi, bits)
+    if rg is None:
+        return []
+    a, b = rg
+    pts = []
+    for n in (1, 2, 3, 4, 5, 6, 7, 13, 40):
+        if name == 'brown' and n < 2:
+            continue
+        pts += [[b] * n, [a] * n, [a if i % 2 else b for i in range(n)], [rng.randint(a, b) for _ in range(n)]]
+    return pts
+
+
+def narrow_eval(np, fn, name, x, dtype, shape_):
+    """-> (value on the narrow integer array or None if it raised, error, exact reference or nan)"""
+    xi = np.array(x, dtype=dtype) if shape_ == 'flat' else np.array([[v] for v in x], dtype=dtype)
+    try:
+        ref = REF[name]([int(v) for v in x])
+        ref = float('nan') if isinstance(ref, complex) else float(ref)
+    except (ValueError, ZeroDivisionError, OverflowError, TypeError):
+        ref = float('nan')
+    try:
+        return float(np.asarray(fn(xi)).reshape(-1)[0]), None, ref
+    except Exception as ex:
+        return None, repr(ex)[:100], ref
+
+
 def check(ctx):
     L = lib.load()
     np = L['np']
@@ -70,6 +134,8 @@ def check(ctx):
     for m in missing:
         C.issue('benchmark-without-model', 'correspondence', dict(how='bench', name=m))
     drv = common.Driver()
+    import random as _random
+    rng_narrow = _random.Random(ctx['seed'] * 6007 + 17)      # own stream: the other scenarios draw what they drew before
     try:
         per = 25 if ctx['tier'] == 'quick' else 400
         for name in active:
@@ -166,6 +232,27 @@ def check(ctx):
                     if rm == rm and not close(rm, ym):
                         C.issue('not-the-documented-formula', 'oracle', rpm, got=ym, reference=rm)
                     C.case(key=(name, 'matrix', shp), nontrivial=True, kind=f'{name}/matrix')
+            # whole-number points of the box stored as int32 / int16 / int8 arrays (where the documented formula is exact in
+            # NumPy's integer arithmetic on that dtype): the value of the formula, computed exactly, and never below the minimum
+            for dtype_, bits_ in NARROW:
+                for x in narrow_points(rng_narrow, name, lo, hi, bits_):
+                    try:
+                        yf = float(fn(np.array(x, dtype=float)))
+                    except Exception:
+                        continue                # reported by the float checks
+                    for shape_ in ('flat', 'column'):
+                        rpn = dict(how='bench', name=name, x=x, integer=shape_, dtype=dtype_)
+                        yi, err, ref = narrow_eval(np, fn, name, x, dtype_, shape_)
+                        if yi is None:
+                            C.issue('benchmark-raised-on-integer-array', 'oracle', rpn, error=err)
+                        elif ref == ref and abs(ref) != float('inf') and (yi != yi or not close(yi, ref)):
+                            C.issue('not-the-documented-formula', 'oracle', rpn, got=yi, reference=ref)
+                        elif not close(yi, yf) and not (yi != yi and yf != yf):
+                            C.issue('not-the-documented-formula', 'oracle', rpn, got=yi, reference=yf)
+                        elif name in COHERENT and yi == yi and not (name == 'csendes' and any(v == 0 for v in x)) \
+                                and yi < COHERENT[name][0](len(x)) - 1e-9:
+                            C.issue('below-documented-minimum', 'oracle', rpn, value=yi, minimum=COHERENT[name][0](len(x)))
+                    C.case(key=(name, dtype_, tuple(x)), nontrivial=len(x) >= 2, kind=f'{name}/{dtype_}')
             ok_pts = []
             for tag, x in pts:
                 try:
@@ -420,6 +507,15 @@ def replay(prop, payload):
             v_ = mat[:, 1] if payload['view'] == 'matrix-column' else mat[:, 1:2]
             yv = float(np.asarray(getattr(bm, name)(v_)).reshape(-1)[0])
         return not close(yv, yf) and not (yv != yv and yf != yf)
+    if payload.get('integer') and payload.get('dtype'):
+        yf = float(np.asarray(getattr(bm, name)(np.array(x, dtype=float))).reshape(-1)[0])
+        yi, err, ref = narrow_eval(np, getattr(bm, name), name, x, payload['dtype'], payload['integer'])
+        if yi is None:
+            return True
+        bad = (ref == ref and abs(ref) != float('inf') and (yi != yi or not close(yi, ref))) or (not close(yi, yf) and not (yi != yi and yf != yf))
+        if name in COHERENT and yi == yi and not (name == 'csendes' and any(v == 0 for v in x)):
+            bad = bad or yi < COHERENT[name][0](len(x)) - 1e-9
+        return bool(bad)
     if payload.get('integer'):
         xi = np.array([int(v) for v in x]) if payload['integer'] == 'flat' else np.array([[int(v)] for v in x])
         yf = float(np.asarray(getattr(bm, name)(np.array(x, dtype=float))).reshape(-1)[0])
